@@ -230,7 +230,9 @@ theorem decodeGlb_encodeGlb (json bin : Bytes) (hj : json.length + 4 < 429496729
   rw [h0, List.take_left' rfl, List.drop_left' rfl]
   have hlen : (le32 bin.length ++ (le32 magicBin ++ bin)).length = (7 + bin.length) + 1 := by
     simp [le32_length]; omega
-  rw [hlen, binChunks_single bin hb _ _ (by omega)]
+  have hnot : ¬ ((c ++ (le32 bin.length ++ (le32 magicBin ++ bin))).length < c.length) := by
+    simp only [List.length_append]; omega
+  rw [if_neg hnot, hlen, binChunks_single bin hb _ _ (by omega)]
   simp [le32_length]; omega
 
 /-! ### views -/
